@@ -11,14 +11,46 @@ TASK_TIMEOUT = 180
 EXHAUSTIVE = False
 RULE = ("phasing worlds (1-3 samples, 1-2 chromosomes) whose VCF is decorated with records the writer skips or must not touch: "
         "multi-ALT, symbolic <DEL>, duplicate positions, homozygous / missing / partially missing / haploid calls, pre-existing PS and HP "
-        "phasing, extra FORMAT (GQ, DP, XX) and INFO values, FILTER entries; all --sample / --chromosome selections, both tags, "
+        "phasing, extra FORMAT (GQ, DP, XX) and INFO values, FILTER entries, headers that define an INFO and a FORMAT field with the "
+        "same ID (AD, GQ, DP, XX, PS, HP, PQ, HS, AC, AN, SVTYPE, SVLEN, END; FORMAT definitions that whatshap's header repair rewrites or "
+        "supplies, INFO definitions it supplies) with records that use both; all --sample / --chromosome selections, both tags, "
         "--only-snvs, --distrust-genotypes; input and output are compared on the raw text of every column; non-trivial = the output "
         "phases at least one call and the input contains at least one decorated record")
 ASSUMPTIONS = [
     "phase encoding = GT order/separator, PS, HP, PQ, HS of target samples on selected chromosomes (what the statement exempts)",
     "opaque values are interned strings compared for equality; the header is compared by the ids of its contig/INFO/FILTER/FORMAT lines",
+    "INFO and FORMAT are separate namespaces: a definition is identified by (section, ID); made-up INFO values are not generated for END "
+    "and for SVLEN on symbolic alleles (htslib derives the record length from them)",
 ]
 PHASE_KEYS = ("GT", "PS", "HP", "PQ", "HS")
+# IDs that the header defines BOTH as INFO and as FORMAT (separate namespaces in VCF; bcftools mpileup -a AD,INFO/AD, GATK, ...).
+# fmt: FORMAT definitions to choose from (the first agrees with whatshap's table / is neutral, the others are the definitions of other
+# tools that whatshap's header repair rewrites); pf / pi: whatshap can define the FORMAT / INFO itself, so the input may leave it
+# undeclared; phase: a phase-encoding key (only declared here, its values come from the pre-existing-phasing decoration)
+SHARED = {
+    "AD": {"fmt": ["Number=.,Type=Integer", "Number=R,Type=Integer"], "info": "Number=R,Type=Integer", "pf": True},
+    "GQ": {"fmt": ["Number=1,Type=Integer", "Number=1,Type=Float", "Number=.,Type=Integer"], "info": "Number=1,Type=Integer", "pf": True},
+    "DP": {"fmt": ["Number=1,Type=Integer"], "info": "Number=1,Type=Integer"},
+    "XX": {"fmt": ["Number=1,Type=String"], "info": "Number=1,Type=String"},
+    "PS": {"fmt": ["Number=1,Type=Integer", "Number=.,Type=Integer"], "info": "Number=1,Type=Integer", "phase": True},
+    "HP": {"fmt": ["Number=.,Type=String", "Number=1,Type=String"], "info": "Number=.,Type=String", "phase": True},
+    "PQ": {"fmt": ["Number=1,Type=Float", "Number=1,Type=Integer"], "info": "Number=1,Type=Float", "phase": True},
+    "HS": {"fmt": ["Number=.,Type=Integer", "Number=1,Type=Integer"], "info": "Number=.,Type=Integer", "phase": True},
+    "AC": {"fmt": ["Number=A,Type=Integer"], "info": "Number=A,Type=Integer", "pi": True},
+    "AN": {"fmt": ["Number=1,Type=Integer"], "info": "Number=1,Type=Integer", "pi": True},
+    "SVTYPE": {"fmt": ["Number=1,Type=String"], "info": "Number=1,Type=String", "pi": True},
+    "SVLEN": {"fmt": ["Number=.,Type=Integer"], "info": "Number=.,Type=Integer", "pi": True},
+    "END": {"fmt": ["Number=1,Type=Integer"], "info": "Number=1,Type=Integer", "pi": True},
+}
+
+
+def _shared_value(rng, spec, nalt):
+    """a value string that fits the definition 'Number=..,Type=..' on a record with nalt ALT alleles"""
+    number, typ = [x.split("=")[1] for x in spec.split(",")]
+    n = {"1": 1, "A": nalt, "R": nalt + 1, ".": nalt + 1}[number]
+    if typ == "String":
+        return rng.choice(["foo", "DEL", "bar_1"])
+    return ",".join(str(rng.randint(0, 40)) for _ in range(n))
 
 
 def design_mc(ctx):
@@ -88,6 +120,15 @@ def scenarios(ctx):
             w["nocontig"] = rng.choice(["none", "first"])
         if rng.random() < 0.15:
             w["undeclared_info"] = True
+        if rng.random() < 0.4:
+            # the header defines an INFO and a FORMAT field with the SAME ID and the records use both
+            sh = []
+            for x in rng.sample(sorted(SHARED), rng.choice([1, 1, 2, 3])):
+                t = SHARED[x]
+                sh.append({"id": x, "fdef": rng.randrange(len(t["fmt"])),
+                           "fmt_declared": not (t.get("pf") and rng.random() < 0.25),
+                           "info_declared": not (t.get("pi") and rng.random() < 0.5)})
+            w["shared_ids"] = sh
         w["opts"] = o
         w["decor_seed"] = rng.randrange(10 ** 6)
         scs.append({"world": w})
@@ -180,10 +221,39 @@ def _decorate(wd, d, paths):
         for r_ in out:
             if r_.get("info", ".") in (".", "") or "AC=" in r_.get("info", ""):
                 r_["info"] = "AC=1;AN=2"
-    W.write_vcf(paths["vcf"], samples, contigs, out, fmt_keys=tuple(wd["fmt_keys"]), info_keys=ikeys,
-                extra_header=('##INFO=<ID=SVTYPE,Number=1,Type=String,Description="sv type">',
-                              '##INFO=<ID=END,Number=1,Type=Integer,Description="end">',
-                              '##ALT=<ID=DEL,Description="Deletion">'))
+    fkeys = list(wd["fmt_keys"])
+    ikeys = list(ikeys)
+    extra = {"SVTYPE": '##INFO=<ID=SVTYPE,Number=1,Type=String,Description="sv type">',
+             "END": '##INFO=<ID=END,Number=1,Type=Integer,Description="end">'}
+    lines = []
+    rng2 = random.Random(wd["decor_seed"] + 1)
+    for x in wd.get("shared_ids", ()):
+        # one ID in both namespaces: the FORMAT definition may be one that whatshap rewrites or may be left to whatshap,
+        # the INFO definition may be left to whatshap where it can supply it; the records use both fields
+        k, t = x["id"], SHARED[x["id"]]
+        fdef = t["fmt"][x["fdef"]]
+        if k in fkeys:
+            fkeys.remove(k)
+        if k in ikeys:
+            ikeys.remove(k)
+        extra.pop(k, None)
+        if x["fmt_declared"]:
+            lines.append('##FORMAT=<ID=%s,%s,Description="per-sample %s">' % (k, fdef, k))
+        if x["info_declared"]:
+            lines.append('##INFO=<ID=%s,%s,Description="site-level %s">' % (k, t["info"], k))
+        for r_ in out:
+            nalt = len(r_["alt"].split(","))
+            if not t.get("phase") and k not in r_["fmt"] and rng2.random() < 0.8:
+                r_["fmt"] = list(r_["fmt"]) + [k]
+                for c in r_["calls"]:
+                    c.append(_shared_value(rng2, fdef, nalt) if rng2.random() < 0.9 else ".")
+            # INFO/END and, on symbolic alleles, INFO/SVLEN are not opaque (htslib derives the record length from them and pysam
+            # keeps END in sync with it): no made-up values for these
+            if k != "END" and not (k == "SVLEN" and "<" in r_["alt"]) and (k + "=") not in r_.get("info", ".") and rng2.random() < 0.8:
+                v = k + "=" + _shared_value(rng2, t["info"], nalt)
+                r_["info"] = v if r_.get("info", ".") in (".", "") else r_["info"] + ";" + v
+    W.write_vcf(paths["vcf"], samples, contigs, out, fmt_keys=tuple(fkeys), info_keys=tuple(ikeys),
+                extra_header=tuple(extra.values()) + ('##ALT=<ID=DEL,Description="Deletion">',) + tuple(lines))
 
 
 class Interner:
@@ -307,7 +377,7 @@ MANIFEST = {
             "implementation-shaped model of the streaming writer (remove old phasing of targets, skip unsupported records, write phase) "
             "that TLC checks against the relation for every 2-record file x target set x phasing result. Real `whatshap phase` runs on "
             "decorated VCFs (multi-ALT, symbolic, duplicate positions, missing/partial/haploid genotypes, pre-existing PS/HP phasing, extra "
-            "INFO/FORMAT/FILTER values, sample/chromosome selections, both tags, --only-snvs, --distrust-genotypes) are projected from the "
+            "INFO/FORMAT/FILTER values, INFO and FORMAT fields sharing one ID, sample/chromosome selections, both tags, --only-snvs, --distrust-genotypes) are projected from the "
             "raw text of both files and judged by TLC.",
     "note": "trusted: TLC, PhaseWrite.tla, the text projection in wv/props/c04.py",
     "technique": "TLA+ relation + TLC model checking of the writer design + TLC trace validation of raw input/output file pairs",
